@@ -166,4 +166,96 @@ theorem dedupLoop_eq_dedupRows (alpha : Nat) (g : Bool) (rest : List Row) (b : B
             fun a ha b hb => (List.nodup_append.mp this).2.2 a ha b (List.mem_cons_of_mem _ hb)⟩))
       exact this
 
+/-! ### without any assumption on the names (policies NONE and IGNORE_SEQUENCE)
+
+When names repeat, re-adding may rename a row, but under these two policies it never drops one: the kept
+*sequences* and the groups are still those of the reference. -/
+
+theorem getByName_mem (b : Bag) (n : String) (r : Row) (h : getByName b n = some r) : r ∈ b.rows := by
+  unfold getByName at h
+  cases hl : idxLookup n b.index with
+  | none => rw [hl] at h; simp at h
+  | some i => rw [hl] at h; exact (deref_some (by simpa using h)).1
+
+theorem addSeqBase_pushes (b : Bag) (n : String) (s : Seq) (hpol : b.policy ≠ IGNORE_NAME)
+    (hnot : ∀ r ∈ b.rows, r.seq ≠ s) : ∃ nm, addSeqBase b n s = (pushed false b nm s, false) := by
+  have hsame : sameSeqOpt (getByName b n) s = false := by
+    cases hgn : getByName b n with
+    | none => rfl
+    | some r =>
+      have := hnot r (getByName_mem b n r hgn)
+      simp [sameSeqOpt, this]
+  have hp : (b.policy == IGNORE_NAME) = false := by simpa using hpol
+  exact ⟨Model.freshName b.index n, by simp [addSeqBase, addSeqAs, pushed, hsame, hp]⟩
+
+theorem dedupLoop_seqs (alpha : Nat) (g : Bool) (rest : List Row) (b : Bag) (acc : List Grp)
+    (seen : List (Seq × Nat)) (groups : List (List String))
+    (hpol : b.policy ≠ IGNORE_NAME)
+    (hp : (pairs b).map Prod.snd = acc.map (fun e => e.2.2.1))
+    (hkey : ∀ e ∈ acc, e.1 = dedupKey alpha g e.2.2.1)
+    (hs : seen = seenOf acc 0) (hg : groups = acc.map grpOf) (hk : (acc.map Prod.fst).Nodup) :
+    (dedupLoop alpha g rest b seen groups).2.1 = false ∧
+    (pairs (dedupLoop alpha g rest b seen groups).1).map Prod.snd =
+      (dedupRows (dedupKey alpha g) (rest.map fun r => (r.name, r.seq)) acc).map (fun e => e.2.2.1) ∧
+    (dedupLoop alpha g rest b seen groups).2.2 =
+      (dedupRows (dedupKey alpha g) (rest.map fun r => (r.name, r.seq)) acc).map grpOf ∧
+    SameSettings b (dedupLoop alpha g rest b seen groups).1 := by
+  induction rest generalizing b acc seen groups with
+  | nil => exact ⟨rfl, by simpa [dedupLoop, dedupRows] using hp, by simpa [dedupLoop, dedupRows] using hg, rfl, rfl, rfl, rfl⟩
+  | cons r t ih =>
+    simp only [dedupLoop, List.map_cons]
+    rw [dedupRows_cons]
+    subst hs hg
+    cases hf : (seenOf acc 0).find? (fun p => p.1 == dedupKey alpha g r.seq) with
+    | none =>
+      have ha := (seenOf_find_none _ acc 0).mp hf
+      have hnot : ∀ r' ∈ b.rows, r'.seq ≠ r.seq := by
+        intro r' hr' e
+        have hm : r'.seq ∈ (pairs b).map Prod.snd := by
+          simp only [pairs, List.map_map, List.mem_map, Function.comp]
+          exact ⟨r', hr', rfl⟩
+        rw [hp] at hm
+        obtain ⟨e0, he0, ee⟩ := List.mem_map.mp hm
+        have hk0 := hkey e0 he0
+        have : acc.any (fun g' => g'.1 == dedupKey alpha g r.seq) = true := by
+          simp only [List.any_eq_true, beq_iff_eq]
+          exact ⟨e0, he0, by rw [hk0, ee, e]⟩
+        rw [ha] at this
+        cases this
+      obtain ⟨nm, hadd⟩ := addSeqBase_pushes b r.name r.seq hpol hnot
+      simp only [hadd, ha, Bool.false_eq_true, if_false]
+      have := ih (pushed false b nm r.seq) (acc ++ [(dedupKey alpha g r.seq, r.name, r.seq, [r.name])])
+        (seenOf acc 0 ++ [(dedupKey alpha g r.seq, (acc.map grpOf).length)]) (acc.map grpOf ++ [[r.name]])
+        (by simpa [pushed] using hpol)
+        (by simp only [pairs, pushed, List.map_append, List.map_cons, List.map_nil]
+            have : (b.rows.map (fun r => (r.name, r.seq))).map Prod.snd = acc.map (fun e => e.2.2.1) := hp
+            rw [this])
+        (by intro e he
+            rcases List.mem_append.mp he with he | he
+            · exact hkey e he
+            · simp only [List.mem_singleton] at he; subst he; rfl)
+        (by rw [seenOf_snoc]; simp)
+        (by simp [grpOf])
+        (nodup_keys_snoc acc _ _ rfl hk (by simp [ha]))
+      obtain ⟨a1, a2, a3, a4⟩ := this
+      exact ⟨a1, a2, a3, a4⟩
+    | some p =>
+      have ha : acc.any (fun g' => g'.1 == dedupKey alpha g r.seq) = true := by
+        cases hb : acc.any (fun g' => g'.1 == dedupKey alpha g r.seq) with
+        | true => rfl
+        | false => rw [(seenOf_find_none _ acc 0).mpr hb] at hf; cases hf
+      simp only [ha, if_true]
+      have hseqs : (acc.map (upd (dedupKey alpha g r.seq) r.name)).map (fun e => e.2.2.1) = acc.map (fun e => e.2.2.1) := by
+        rw [List.map_map]; apply List.map_congr_left; intro g' _; simp only [Function.comp, upd]; split <;> rfl
+      have := ih b (acc.map (upd (dedupKey alpha g r.seq) r.name)) (seenOf acc 0) (appendAt (acc.map grpOf) p.2 r.name)
+        hpol (by rw [hseqs]; exact hp)
+        (by intro e he
+            obtain ⟨e0, he0, ee⟩ := List.mem_map.mp he
+            subst ee
+            have := hkey e0 he0
+            unfold upd; split <;> exact this)
+        (by rw [seenOf_upd])
+        (appendAt_seen _ _ acc p hk hf) (by rw [map_upd_keys]; exact hk)
+      exact this
+
 end Gv.Proofs.Dedup
